@@ -159,6 +159,7 @@ let run toks =
             | Some j0 ->
                 let j = mutate (nat_of_int 6) (n_of_dec seed) j0 in
                 "ok " ^ hex_of_bytes (jprint j) ^ " " ^ b01 (j = j0) ^ " " ^ show_res (tid t) (jr (tid t) [] (Some j))))
+  | ["wf"] -> if wf_jschema js then "ok true" else "ok false"
   | l -> "driver-error unknown op " ^ String.concat " " l
 
 let () = each_line run
